@@ -42,6 +42,7 @@ class RetryObs:
     failed_event: Any = None  # WorkflowFailedEvent or StepFailedEvent
     stuck: bool = False
     capped: bool = False
+    sibling_attempts: list[Attempt] = field(default_factory=list)
 
 
 def run_failing(
@@ -56,6 +57,8 @@ def run_failing(
     busy_block: float = 0.0,
     wait_on_attempt: int | None = None,
     lag: float = 0.0,
+    sibling: str | None = None,
+    sibling_policy: Any = None,
 ) -> RetryObs:
     """``exc_for_attempt(i)`` (i = 0,1,..) gives the exception attempt i raises, or None to succeed."""
     obs = RetryObs()
@@ -103,11 +106,30 @@ def run_failing(
                 raise exc
             return StopEvent(result="ok")
 
+        async def sib(self, ctx, ev, inv):  # noqa: ANN001
+            # another step that accepts the same event as the failing one: "steady" never fails, "flaky" always fails
+            # under its own (larger) budget; its retry bookkeeping and the failing step's must not touch each other
+            if (queue_wait or busy_block) and getattr(ev, "uid", 1) == 0:
+                return None
+            ri = ctx.retry_info()
+            att = Attempt(loop.vt, None, ri.retry_number, ri.last_exception, ri.elapsed_seconds)
+            obs.sibling_attempts.append(att)
+            if sibling == "flaky":
+                if dur > 0:
+                    await asyncio.sleep(dur)
+                att.t_fail = loop.vt
+                att.raised = RuntimeError(f"sibling fail{len(obs.sibling_attempts) - 1}")
+                raise att.raised
+            return None
+
         if queue_wait or busy_block:
             steps = [make_step("feeder", [StartEvent], [Work, None], feeder, track=False),
                      make_step("start", [Work], [StopEvent, None], start, retry_policy=policy, track=False, num_workers=1)]
         else:
             steps = [make_step("start", [StartEvent], [StopEvent], start, retry_policy=policy, track=False)]
+        if sibling:
+            steps.append(make_step("sib", [Work] if (queue_wait or busy_block) else [StartEvent], [StopEvent, None], sib,
+                                   retry_policy=sibling_policy if sibling == "flaky" else None, track=False))
         if with_handler:
             async def on_err(self, ctx, ev, inv):  # noqa: ANN001
                 obs.failed_event = ev
